@@ -104,6 +104,14 @@ Module Spec.
     | _, _ => false
     end.
 
+  (* the axis `new` builds: [bins] strictly increasing points from lo to hi (hi up to accumulated rounding) *)
+  Definition check_axis (tol lo hi : Q) (bins : nat) (xs : list Q) : bool :=
+    (List.length xs =? bins) && increasing (N:=QN) xs &&
+    match xs, last_opt xs with
+    | x0 :: _, Some xl => Qeq_bool x0 lo && Qle_bool (Qabs (xl - hi)) (tol * (1 + Qabs lo + Qabs hi))
+    | _, _ => false
+    end.
+
   (* speed/grade model: never Err, value at the clamped point within the 4 surrounding underlying values *)
   Definition qclamp (lo hi v : Q) : Q := Qmin (Qmax v lo) hi.
   Definition check_sg (tol : Q) (xs ys : list Q) (tab : list (list Q)) (sv gv : Q) (r : res Q) : bool :=
@@ -180,26 +188,22 @@ Definition spec_generic (n : nat) (grid : list (list float)) (v : @arr FN n) (pt
             Spec.check_mlin tolQ n gq vq (F2Q c) (map (fun x => (F2Q (fst x), F2Q (snd x))) ab)
                             (map F2Q (fst pr)) (resQ (fst (snd pr)))
         end in
+    match first_bad chk1 (combine pts nd) 0 with
+    | Some i => "REJECT nd query " ++ show_nat i
+    | None =>
+    match first_bad chk1 (combine pts sp) 0 with
+    | Some i => "REJECT specialised query " ++ show_nat i
+    | None =>
     match first_bad chkm (combine pts nd) 0 with
     | Some i => "REJECT nd not exact on a multilinear table at query " ++ show_nat i
     | None =>
     match first_bad chkm (combine pts sp) 0 with
     | Some i => "REJECT specialised not exact on a multilinear table at query " ++ show_nat i
     | None =>
-    match first_bad chk1 (combine pts nd) 0 with
-    | Some i => "REJECT nd query " ++ show_nat i
-    | None =>
-        match first_bad chk1 (combine pts sp) 0 with
-        | Some i => "REJECT specialised query " ++ show_nat i
-        | None =>
-            match first_bad agree (combine sp nd) 0 with
-            | Some i => "REJECT nd differs from specialised at query " ++ show_nat i
-            | None => (match sp with [] => "-" | _ => show_pts sp end) ++ " | " ++ show_pts nd
-            end
-        end
-    end
-    end
-    end.
+    match first_bad agree (combine sp nd) 0 with
+    | Some i => "REJECT nd differs from specialised at query " ++ show_nat i
+    | None => (match sp with [] => "-" | _ => show_pts sp end) ++ " | " ++ show_pts nd
+    end end end end end.
 Definition line_sg id n grid v pts ml sp nd := line "S" id (spec_generic n grid v pts ml sp nd).
 
 (* ---------- speed / grade stream ---------- *)
@@ -231,7 +235,8 @@ Definition line_sgm id samples cs cg s_lo s_hi s_bins g_lo g_hi g_bins qs :=
 
 (* S line: xs, ys = the grid the implementation built (utils::linspace), tab = the underlying model sampled by the
    harness on that grid, cq = converted queries, outs = the implementation's predictions *)
-Definition spec_sg (xs ys : list float) (tab : list (list float)) (cq : list (float * float))
+Definition spec_sg (s_lo s_hi : float) (s_bins : nat) (g_lo g_hi : float) (g_bins : nat)
+           (xs ys : list float) (tab : list (list float)) (cq : list (float * float))
            (outs : list (res float)) : string :=
   if negb (forallb finiteb xs && forallb finiteb ys && forallb (forallb finiteb) tab
            && forallb (fun q => finiteb (fst q) && finiteb (snd q)) cq
@@ -240,11 +245,16 @@ Definition spec_sg (xs ys : list float) (tab : list (list float)) (cq : list (fl
     let xq := map F2Q xs in let yq := map F2Q ys in let tq := map (map F2Q) tab in
     let chk (pr : (float * float) * res float) :=
         Spec.check_sg tolQ xq yq tq (F2Q (fst (fst pr))) (F2Q (snd (fst pr))) (resQ (snd pr)) in
+    if negb (finiteb s_lo && finiteb s_hi && finiteb g_lo && finiteb g_hi) then "unspecified"
+    else if negb (Spec.check_axis tolQ (F2Q s_lo) (F2Q s_hi) s_bins xq) then "REJECT speed axis"
+    else if negb (Spec.check_axis tolQ (F2Q g_lo) (F2Q g_hi) g_bins yq) then "REJECT grade axis"
+    else
     match first_bad chk (combine cq outs) 0 with
     | Some i => "REJECT query " ++ show_nat i
     | None => "x=" ++ show_list show_float xs ++ " y=" ++ show_list show_float ys ++ " "
               ++ join ";" (map show_rf outs)
     end.
-Definition line_sgs id xs ys tab cq outs := line "S" id (spec_sg xs ys tab cq outs).
+Definition line_sgs id s_lo s_hi s_bins g_lo g_hi g_bins xs ys tab cq outs :=
+  line "S" id (spec_sg s_lo s_hi s_bins g_lo g_hi g_bins xs ys tab cq outs).
 
 End InterpRun.
